@@ -22,7 +22,9 @@ def cfg(elems, step, emit):
             % (", ".join('"%s"' % e for e in elems), step, "TRUE" if emit else "FALSE", "EmitInv" if emit else "DesignInv"))
 
 
-def observe(x, perm_seed):
+def observe(x, perm_seed, intcell=False):
+    """intcell: a cell of whole Angstroms is handed over as an integer array (what the constructor stores for
+    `cell=[[6,0,0],[0,7,0],[0,0,9]]`); positions stay floating point"""
     from mofun import Atoms
     from mofun.detect_bonds import detect_bonds
     n = len(x["atoms"])
@@ -39,7 +41,8 @@ def observe(x, perm_seed):
             # explicit type tables: the radius table has entries (D) that the mass table lacks, and masses play no role here
             a = Atoms(atom_types=[uniq.index(e) for e in els], atom_type_elements=uniq, atom_type_masses=[1.0] * len(uniq),
                       atom_type_labels=uniq, positions=np.array([t["pos"] for t in atoms], dtype=float) / unit,
-                      cell=(np.array(x["cell"], dtype=float) / unit) if x["cell"] else None)
+                      cell=((np.array(np.rint(np.array(x["cell"], dtype=float) / unit), dtype=int) if intcell
+                             else np.array(x["cell"], dtype=float) / unit) if x["cell"] else None))
             b = detect_bonds(a)
         ev["obs"] = [[int(i), int(j)] for i, j in np.array(b).reshape(-1, 2)]
     except Exception as e:
@@ -55,6 +58,8 @@ def _chunk(task):
         out.append((xi, 0, observe(x, None)))
         if len(x["atoms"]) >= 2:
             out.append((xi, 1, observe(x, sd * 7 + xi)))
+        if x["cell"] and x.get("kind") != "near" and all(int(v) % 100 == 0 for row in x["cell"] for v in row) and (xi % 3 == sd % 3 or len(x["atoms"]) > 2):
+            out.append((xi, 2, observe(x, None, intcell=True)))
     return out
 
 
@@ -100,7 +105,7 @@ def run(prop, tier, replay=None):
                 out.sample({"cell": xs[xi]["cellname"], "kind": xs[xi]["kind"], "atoms": ev["atoms"], "bonds": ev["obs"]})
             continue
         by[vd] = by.get(vd, 0) + 1
-        out.violation({"op": "detect_bonds", "clause": vd, "flags": [xs[xi]["kind"], xs[xi]["cellname"]] + (["reordered"] if var else []),
+        out.violation({"op": "detect_bonds", "clause": vd, "flags": [xs[xi]["kind"], xs[xi]["cellname"]] + (["reordered"] if var == 1 else ["integer-cell"] if var == 2 else []),
                        "exc": ev["exc"], "exc_msg": ev.get("exc_msg", "")}, {"crystal": xs[xi], "observed": ev})
     out.notes["rejected_by_clause"] = by
     out.assumptions = ["radius table and non-metal list read from /repo/mofun/detect_bonds.py at run time",
